@@ -141,6 +141,8 @@ fn has_unterminated_front_matter(data: &str) -> bool {
         let line = line.trim_end_matches([' ', '\t']);
         matches!(line, "---" | "+++").then_some(line)
     }
+    // The Markdown parser skips a leading byte order mark.
+    let data = data.strip_prefix('\u{feff}').unwrap_or(data);
     // Markdown line endings are `\n`, `\r\n` and `\r`.
     let mut lines = data.split(['\n', '\r']);
     match lines.next().and_then(fence) {
